@@ -187,21 +187,22 @@ def tcp_reader_worker(analysis: Analysis, _spec) -> dict:
                     problems.append((f"the chunk handed to data_received is {src[:80]}, not the received bytes unchanged", out))
                 last = None
         # a truthy chunk that was never handed over before the next receive / the end is a dropped chunk
-    # every path with a received truthy chunk must hand it over: compare counts per path
+    # a received chunk may be skipped only when it is empty: after a receive, the next step of the loop is the
+    # hand-over, or it is taken under `not data`
     for out in outs:
         kind, s, v = out
-        evs = [e for e in s.events if e.kind == "call"]
+        evs = [e for e in s.events if e.kind in ("call", "catch", "loopcut")]
         for i, e in enumerate(evs):
-            short = e.name.split(".")[-1]
-            if short in ("recv",) and "sock" in repr(e.recv.key() if isinstance(e.recv, V) else ""):
-                # the result of this call
-                rk = None
-                for f in s.facts:
-                    if f[0] == "truthy" and "recv" in repr(f[1]) and f"{e.func}:{e.line}" in repr(f[1]).replace("', ", ":").replace("'", ""):
-                        rk = f[1]
-                nxt = [x for x in evs[i + 1:] if x.name.split(".")[-1] in ("recv", "data_received")]
-                if rk is not None and (not nxt or nxt[0].name.split(".")[-1] != "data_received"):
-                    problems.append(("a non-empty chunk is received but not handed to data_received before the next receive", out))
+            if not (e.kind == "call" and e.name.split(".")[-1] == "recv" and "sock" in repr(e.recv.key() if isinstance(e.recv, V) else "")):
+                continue
+            nxt = evs[i + 1] if i + 1 < len(evs) else None
+            if nxt is None or nxt.kind != "call" or nxt.name.split(".")[-1] == "data_received":
+                continue  # handed over, or the receive itself failed / the path ends here
+            fs = nxt.facts or ()
+            known_empty = any(f[0] in ("falsy", "isnone") and "recv" in repr(f[1]) for f in fs)
+            known_data = any(f[0] == "truthy" and "recv" in repr(f[1]) for f in fs)
+            if not known_empty:
+                problems.append(("a received chunk is skipped on a path that is not taken under `not data`: non-empty chunks can be dropped", out))
     return {"paths": len(outs), "recv": n_recv, "handed": n_handed, "problems": [(p, describe_path(o, 16)) for p, o in problems[:4]]}
 
 
